@@ -5,7 +5,10 @@ Model driver for C11.
 
 ops
   reset n=<n> app=<0|1|2> kind=<gen|neg|shipped> start=<s0,s1,..> stop=<s0,s1,..> [cbS=<none|stop|gostop>] [cbX=<none|start|stop>] [name=..]
-        app: 0 plain ModList, 1 baseapp.App, 2 node/app.App (StartNode / StopNode through a launch mode)
+        app: 0 plain ModList, 1 baseapp.App, 2 node/app.App (StartNode / StopNode through a launch mode: `Node.step`
+        of the model); node only: svc=<P|M per service> mode=<reg|empty|unreg> (the node's StartMode: registered /
+        empty / not registered) nodefault=1 (no default launch mode has been set) prep=0 (StartNode without Prepare)
+        readd=1 (the launch mode registers n fresh modules, scripts T, every time it runs; default: only the first time)
         cbS / cbX: what the start- / stop-completion callback does when invoked: issue Stop (directly, or on
         another goroutine that it waits for) / Start — logged as RX / RS, followed by what that call did
         scripts: what module i does synchronously inside Start / Stop, a string over
@@ -13,12 +16,20 @@ ops
         A / a: AddModule(a new module with scripts T,T / with delayed completion) -> token A<id>;
         X / S: the module itself issues Stop / Start (tokens RX / RS, then what that call did);
         G: it hands a Stop to another goroutine and waits briefly for it (token RG)
-  begin ph=<S|X>                 app=1: App.Start / Stop;  app=2: StartNode / StopNode;  app=0: ModList.Start / Stop
+  begin ph=<S|X> [node=bad]      app=1: App.Start / Stop;  app=2: StartNode / StopNode (node=bad: with a node id that is
+                                 not in the nodes table);  app=0: ModList.Start / Stop
   fire ph=<S|X> i=<i> b=<T|F> [pre=<A|a>]   module i invokes the `next` it was handed in that phase (later, other
                                  goroutine), after registering a further module when pre= is given
+  wait ms=<n>                    (cases with clock=v in the reset: virtual clock) the modules do nothing for n ms;
+                                 nothing in ModList / App is driven by time, so nothing happens: `-`
 observation: the log segment produced by the op, tokens
   S<i> X<i>  Start/Stop of module i entered      c<i><b> d<i><b>  module i calls next(b) (start / stop phase)
   p<i> q<i>  module i panics (recovered by ModList)   fs<b> fx<b>  finish callback of the start / stop phase
+  P  (node) the launch mode's PrepareModules ran (a second time: it registers its n modules again, scripts T)
+  V<i>  (node) StartServices created the node's i-th service
+  ModList.Start/Stop wrap the callback they hand to a module (`Wrap.step` of the model): a panic before the
+  module reported makes the wrapper call next(false) itself (no c/d token: the module reported nothing), a
+  report of that module arriving later is dropped (its c/d token stands alone), a panic after a report is only logged
   `-` nothing happened, `noop` the module holds no `next` of that phase,
   `undelivered` a completion handed to the application's own run service timer (via=apptimer) never ran,
   `over` (app>=1 only) the stop phase has reported success twice: the log of an App case ends with its second fxT
@@ -48,11 +59,18 @@ def phaseOf (ws : List String) : Option Bool :=
 structure Case where
   n : Nat := 0
   isApp : Bool := false      -- app=1 (baseapp.App) or app=2 (node/app.App.StartNode/StopNode): guarded
+  isNode : Bool := false     -- app=2
+  env : NodeEnv := {}        -- app=2: what StartNode finds
+  prepared : Bool := false   -- app=2: the launch mode's PrepareModules has run before
+  n0 : Nat := 0              -- app=2: modules of the reset line
+  readd : Bool := false      -- app=2: the launch mode registers n0 fresh modules every time it runs
   app : App := App.init 0
   startS : List (List Char) := []
   stopS : List (List Char) := []
-  hasS : List Nat := []      -- modules holding the start phase's `next`
+  hasS : List Nat := []      -- modules holding the start phase's callback
   hasX : List Nat := []
+  wS : Wrap := {}            -- flags of ModList.Start's wrappers (current start phase instance)
+  wX : Wrap := {}
   cbS : String := "none"     -- what the start-finish callback does: none | stop | gostop
   cbX : String := "none"     -- what the stop-finish callback does: none | start | stop
   fxT : Nat := 0             -- app: number of success reports of the stop phase
@@ -76,45 +94,80 @@ def tokOfEv (ph : Bool) : Ev → String
   | .finish b => (if ph then "fs" else "fx") ++ bch b
   | .oob => "panic"
 
-/-- App.Start/Stop (guarded) or ModList.Start/Stop (a plain ModList is an App whose guard is
-open); `none` = refused -/
-def beginPhase (c : Case) (ph : Bool) : Option (Case × List AEv) :=
-  let a := if c.isApp then c.app else { c.app with st := if ph then .prepared else .normal }
-  let r := a.step (if ph then .start else .stop)
+/-- what a plain App / ModList does, in the node's vocabulary: the caller's callback is the phase's `finish` -/
+def plainLog : List AEv → List NEv
+  | [] => []
+  | .ev ph (.finish b) :: r => .app (.ev ph (.finish b)) :: (if ph then NEv.fin b else NEv.finX b) :: plainLog r
+  | e :: r => .app e :: plainLog r
+
+/-- one operation on the object under test: `Node.step` for a node, `App.step` otherwise -/
+def Case.stepOp (c : Case) (op : NOp) : Case × List NEv :=
+  if c.isNode then
+    let r := (Node.mk c.env c.app).step op
+    ({ c with app := r.1.app }, r.2)
+  else
+    let r := c.app.step op.toAOp
+    ({ c with app := r.1 }, plainLog r.2)
+
+/-- App.Start/Stop (guarded), StartNode/StopNode, or ModList.Start/Stop (a plain ModList is an App
+whose guard is open); `none` = refused -/
+def beginPhase (c : Case) (ph : Bool) (known : Bool := true) : Option (Case × List NEv) :=
+  let c0 := if c.isApp then c else { c with app := { c.app with st := if ph then .prepared else .normal } }
+  -- what the harness's launch mode registers this time
+  let adds := if !c.prepared || c.readd then c.n0 else 0
+  let r := c0.stepOp (if ph then .startNode known adds else .stopNode)
   if r.2.isEmpty then none
   else
-    let c := if ph then { c with hasS := [] } else { c with hasX := [] }
-    some ({ c with app := r.1 }, r.2)
+    -- a phase instance was begun (not just PrepareModules run again): the callbacks handed out before are stale
+    let begun := r.2.any fun e => match e with | .app (.begin _) => true | _ => false
+    let c1 := r.1
+    let c1 := if !begun then c1 else if ph then { c1 with hasS := [], wS := {} } else { c1 with hasX := [], wX := {} }
+    some (c1, r.2)
 
 /-- log the events of model steps in order.  An entered module gets the closure and a script
 frame.  A `finish` invokes the scripted completion callback *with the state the model has after
 the step* (the wrapper sets the state before calling `finish`): the callback may issue Stop /
 Start itself (tokens RX / RS), whose events follow inline.  For an App the log of a case ends
 with the second `fxT` (the second `Cleanup` closes a closed channel; outside the property). -/
-def absorb : Nat → Case → List AEv → List String → List Frame → Case × List String × List Frame
+def absorb : Nat → Case → List NEv → List String → List Frame → Case × List String × List Frame
   | 0, c, _, log, frames => (c, log ++ ["fuel"], frames)
   | _ + 1, c, [], log, frames => (c, log, frames)
   | fuel + 1, c, e :: es, log, frames =>
     match e with
-    | .begin _ => absorb fuel c es log frames
-    | .ev ph (.enter i) =>
+    | .prepare =>
+      -- (node) PrepareModules: the first time it registers the case's modules; again: n fresh ones, scripts T
+      if !c.prepared then absorb fuel { c with prepared := true } es (log ++ ["P"]) frames
+      else
+        let k := if c.readd then c.n0 else 0
+        let scr : List (List Char) := List.replicate k ['T']
+        absorb fuel { c with n := c.n + k, startS := c.startS ++ scr, stopS := c.stopS ++ scr } es (log ++ ["P"]) frames
+    | .service i => absorb fuel c es (log ++ ["V" ++ toString i]) frames
+    | .nodeCtrl => absorb fuel c es log frames
+    | .app (.begin _) => absorb fuel c es log frames
+    | .app (.ev ph (.enter i)) =>
       let c := if ph then { c with hasS := i :: c.hasS } else { c with hasX := i :: c.hasX }
       absorb fuel c es (log ++ [tokOfEv ph (.enter i)]) (frames ++ [(ph, i, c.script ph i)])
-    | .ev ph (.finish b) =>
-      let log := log ++ [tokOfEv ph (.finish b)]
-      let stopOK := c.isApp && !ph && b
-      let c := if stopOK then { c with fxT := c.fxT + 1 } else c
-      if stopOK && c.fxT ≥ 2 then ({ c with over := true }, log, [])
+    | .app (.ev _ (.finish _)) => absorb fuel c es log frames     -- reported through the caller's callback: fin / finX
+    | .app (.ev ph x) => absorb fuel c es (log ++ [tokOfEv ph x]) frames
+    | .fin b => finish fuel c true b es log frames
+    | .finX b => finish fuel c false b es log frames
+where
+  /-- the caller's completion callback of a phase runs (scripted: it may issue Stop / Start itself) -/
+  finish (fuel : Nat) (c : Case) (ph b : Bool) (es : List NEv) (log : List String) (frames : List Frame) :
+      Case × List String × List Frame :=
+    let log := log ++ [tokOfEv ph (.finish b)]
+    let stopOK := c.isApp && !ph && b
+    let c := if stopOK then { c with fxT := c.fxT + 1 } else c
+    if stopOK && c.fxT ≥ 2 then ({ c with over := true }, log, [])
+    else
+      let cb := if ph then c.cbS else c.cbX
+      if cb == "none" then absorb fuel c es log frames
       else
-        let cb := if ph then c.cbS else c.cbX
-        if cb == "none" then absorb fuel c es log frames
-        else
-          let tgt := cb == "start"
-          let log := log ++ [if tgt then "RS" else "RX"]
-          match beginPhase c tgt with
-          | none => absorb fuel c es log frames
-          | some (c', evs') => absorb fuel c' (evs' ++ es) log frames
-    | .ev ph x => absorb fuel c es (log ++ [tokOfEv ph x]) frames
+        let tgt := cb == "start"
+        let log := log ++ [if tgt then "RS" else "RX"]
+        match beginPhase c tgt with
+        | none => absorb fuel c es log frames
+        | some (c', evs') => absorb fuel c' (evs' ++ es) log frames
 
 /-- run the synchronous scripts depth-first (a nested Start runs inside the caller's `next`) -/
 def drain : Nat → Case → List Frame → List String → Case × List String
@@ -122,7 +175,17 @@ def drain : Nat → Case → List Frame → List String → Case × List String
   | _ + 1, c, [], log => (c, log)
   | fuel + 1, c, (_, _, []) :: fs, log => drain fuel c fs log
   | fuel + 1, c, (ph, w, ch :: rest) :: fs, log =>
-    if ch == '!' then drain fuel c fs (log ++ [(if ph then "p" else "q") ++ toString w])
+    if ch == '!' then
+      -- the module's Start/Stop panics: recovered by the wrapper, which reports failure unless the module had reported
+      let log := log ++ [(if ph then "p" else "q") ++ toString w]
+      let r := (if ph then c.wS else c.wX).step (.panic w)
+      let c := if ph then { c with wS := r.1 } else { c with wX := r.1 }
+      match r.2 with
+      | none => drain fuel c fs log
+      | some (w', b') =>
+        let st := c.stepOp (.call ph w' b')
+        let (c', log', frames) := absorb 1000 st.1 (st.2.drop 1) log []
+        if c'.over then (c', log') else drain fuel c' (frames ++ fs) log'
     else if ch == 'A' || ch == 'a' then
       let (c', tok) := c.addMod (ch == 'A')
       drain fuel c' ((ph, w, rest) :: fs) (log ++ [tok])
@@ -136,9 +199,15 @@ def drain : Nat → Case → List Frame → List String → Case × List String
         let (c', log', frames) := absorb 1000 c1 evs log []
         if c'.over then (c', log') else drain fuel c' (frames ++ (ph, w, rest) :: fs) log'
     else
-      let r := c.app.step (.call ph w (ch == 'T'))
-      let (c', log', frames) := absorb 1000 { c with app := r.1 } r.2 log []
-      if c'.over then (c', log') else drain fuel c' (frames ++ (ph, w, rest) :: fs) log'
+      -- the module invokes the callback it was handed: the wrapper forwards it unless it has already reported a panic
+      let wr := (if ph then c.wS else c.wX).step (.report w (ch == 'T'))
+      let c := if ph then { c with wS := wr.1 } else { c with wX := wr.1 }
+      match wr.2 with
+      | none => drain fuel c ((ph, w, rest) :: fs) (log ++ [tokOfEv ph (.call w (ch == 'T'))])
+      | some (w', b') =>
+        let r := c.stepOp (.call ph w' b')
+        let (c', log', frames) := absorb 1000 r.1 r.2 log []
+        if c'.over then (c', log') else drain fuel c' (frames ++ (ph, w, rest) :: fs) log'
 
 def showLog (log : List String) : String := if log.isEmpty then "-" else " ".intercalate log
 
@@ -148,14 +217,20 @@ def step (c : Case) (line : String) : Case × String :=
   | some "reset" =>
     match kvNat ws "n", kvNat ws "app" with
     | some n, some a =>
-      ({ n := n, isApp := a ≥ 1, app := App.init n, startS := scriptsOf ws "start" n, stopS := scriptsOf ws "stop" n,
+      let mode := (kv ws "mode").getD "reg"
+      let env : NodeEnv := { nodesLoaded := (kv ws "prep") != some "0", modeNamed := mode != "empty", modeRegistered := mode == "reg",
+                             hasDefault := (kv ws "nodefault") != some "1",
+                             svc := ((kv ws "svc").getD "").toList.map (· == 'P') }
+      -- a node starts without modules: its launch mode registers them inside StartNode
+      ({ n := n, n0 := n, readd := (kv ws "readd") == some "1", isApp := a ≥ 1, isNode := a == 2, env := env, app := App.init (if a == 2 then 0 else n),
+         startS := scriptsOf ws "start" n, stopS := scriptsOf ws "stop" n,
          cbS := (kv ws "cbS").getD "none", cbX := (kv ws "cbX").getD "none" }, "ok")
     | _, _ => (c, "bad-op")
   | some "begin" =>
     match phaseOf ws with
     | none => (c, "bad-op")
     | some ph =>
-      match beginPhase c ph with
+      match beginPhase c ph ((kv ws "node") != some "bad") with
       | none => (c, "-")
       | some (c, evs) =>
         let (c', toks, frames) := absorb 1000 c evs [] []
@@ -176,6 +251,7 @@ def step (c : Case) (line : String) : Case × String :=
         let (c', log) := drain 100000 c [(ph, i, [if b == "T" then 'T' else 'F'])] pre
         (c', showLog log)
     | _, _, _ => (c, "bad-op")
+  | some "wait" => (c, "-")
   | _ => (c, "bad-op")
 
 /-! ### spec mode: the property predicate on the implementation's log -/
@@ -184,14 +260,23 @@ structure Spec where
   n : Nat := 0
   isApp : Bool := false
   kind : String := ""
-  trS : List Ev := []       -- log of the current start-phase instance
-  trX : List Ev := []
+  trS : List Ev := []       -- log of the current start-phase instance, as `Filter` sees it: a panic of a module that
+  trX : List Ev := []       --   had not reported counts as its `next(false)`; reports after that and panics after a report are dropped
+  repS : List Nat := []     -- modules that reported in the current start-phase instance
+  repX : List Nat := []
+  deadS : List Nat := []    -- modules that panicked before reporting
+  deadX : List Nat := []
   begunS : Bool := false
   begunX : Bool := false
   broken : Bool := false    -- some phase log was undisciplined (the scripted modules broke the hypothesis)
   nNow : Nat := 0           -- modules registered so far (n + the A<id> tokens seen)
   nS : Nat := 0             -- registered when the start phase last made progress (`doNow` reads the length live)
   nX : Nat := 0             -- registered when the current stop phase was begun (its index starts at len-1)
+  isNode : Bool := false    -- app=2
+  svcToks : List String := []   -- node: the V<i> tokens StartServices must produce (services with a configuration entry)
+  seenP : Bool := false     -- node: the launch mode's PrepareModules has run
+  readd : Bool := false     -- node: the launch mode registers n fresh modules every time it runs
+  launchable : Bool := true -- node: Prepare was called and LaunchApp finds a launch mode (named and registered, or the default)
 
 def parseTok (t : String) : Option (Bool × Ev) :=
   let cs := t.toList
@@ -212,6 +297,18 @@ def parseTok (t : String) : Option (Bool × Ev) :=
 
 def isPanicTok (t : String) : Bool := t.startsWith "p" || t.startsWith "q"
 
+/-- p<i> / q<i>: (start phase?, module) -/
+def parsePanic (t : String) : Option (Bool × Nat) :=
+  match t.toList with
+  | 'p' :: r => ((String.ofList r).toNat?).map fun i => (true, i)
+  | 'q' :: r => ((String.ofList r).toNat?).map fun i => (false, i)
+  | _ => none
+
+def firstFailer : List Ev → Option Nat
+  | [] => none
+  | .call w false :: _ => some w
+  | _ :: r => firstFailer r
+
 def countCalls (tr : List Ev) (m : Nat) : Nat := ((calls tr).filter fun c => c.1 == m).length
 
 def afterFirstFailure : List Ev → Option (List Ev)
@@ -225,9 +322,13 @@ def badAfterFailure (tr : List Ev) : Bool :=
   | none => false
 
 /-- why a disciplined log is not canonical (only used to name the violation) -/
-def classify (ph : Bool) (order : List Nat) (tr : List Ev) : String :=
+def classify (ph : Bool) (order : List Nat) (dead : List Nat) (tr : List Ev) : String :=
   if (finishes tr).length > 1 then "C11/finish-twice"
-  else if afterFirstFailure tr == some [] then "C11/finish-missing"
+  else if afterFirstFailure tr == some [] then
+    -- the failure is a module that panicked before reporting, and the phase never reported (D21)
+    (match firstFailer tr with
+     | some w => if dead.contains w then "C11/panicking-module-never-completes" else "C11/finish-missing"
+     | none => "C11/finish-missing")
   else if badAfterFailure tr then "C11/continues-after-failure"
   else if !(enters tr).isPrefixOf order then (if ph then "C11/start-order" else "C11/stop-order")
   else if (finishes tr).contains true && (enters tr != order || (calls tr).any fun c => !c.2) then "C11/wrong-outcome"
@@ -245,10 +346,21 @@ def checkPhase (s : Spec) (ph : Bool) (tr : List Ev) : Option String :=
     if s.kind == "shipped" && twice then some "C11/module-completes-twice"
     else if s.kind == "shipped" && never then some "C11/module-never-completes"
     else if disciplinedB tr then
-      if canonB order tr then none else some (classify ph order tr)
+      if canonB order tr then none else some (classify ph order (if ph then s.deadS else s.deadX) tr)
     else none
 
 def isAddTok (t : String) : Bool := t.startsWith "A" && ((t.drop 1).toString.toNat?).isSome
+
+def isSvcTok (t : String) : Bool := t.startsWith "V" && ((t.drop 1).toString.toNat?).isSome
+
+/-- node: every report of the start phase to the caller comes directly after StartServices has created exactly
+the configured services, in order — and services are created nowhere else -/
+def servicesOK (want : List String) : List String → List String → Bool
+  | run, [] => run.isEmpty
+  | run, t :: r =>
+    if isSvcTok t then servicesOK want (run ++ [t]) r
+    else if t.startsWith "fs" then run == want && servicesOK want [] r
+    else run.isEmpty && servicesOK want [] r
 
 /-- does this token show that a phase of the given kind (true = start) was begun? -/
 def showsBegin (tgt : Bool) (t : String) : Bool :=
@@ -270,7 +382,7 @@ def procToks (s : Spec) (prev : String) : List String → Spec × Option String
         if !s.isApp || s.broken then none
         else if prev == "fsT" && !tgt then some true
         else some false
-      let s' := if accepted then (if tgt then { s with trS := [], begunS := true } else { s with trX := [], begunX := true, nX := s.nNow }) else s
+      let s' := if accepted then (if tgt then { s with trS := [], repS := [], deadS := [], begunS := true } else { s with trX := [], repX := [], deadX := [], begunX := true, nX := s.nNow }) else s
       match expected with
       | some true => if accepted then procToks s' t rest else (s', some "C11/stop-dropped-in-start-callback")
       | some false =>
@@ -279,9 +391,25 @@ def procToks (s : Spec) (prev : String) : List String → Spec × Option String
       | none => procToks s' t rest
     else
       let s' := match parseTok t with
+        | some (true, .call w b) =>
+          if s.deadS.contains w then s   -- reported as failed already: a late report must have no effect
+          else { s with trS := s.trS ++ [.call w b], repS := w :: s.repS, nS := s.nNow }
+        | some (false, .call w b) =>
+          if s.deadX.contains w then s
+          else { s with trX := s.trX ++ [.call w b], repX := w :: s.repX }
         | some (true, e) => { s with trS := s.trS ++ [e], nS := s.nNow }
         | some (false, e) => { s with trX := s.trX ++ [e] }
-        | none => if isAddTok t then { s with nNow := s.nNow + 1 } else s
+        | none =>
+          if isAddTok t then { s with nNow := s.nNow + 1 }
+          else if t == "P" then (if s.seenP then { s with nNow := s.nNow + (if s.readd then s.n else 0) } else { s with seenP := true })
+          else match parsePanic t with
+            | some (true, w) =>
+              if s.repS.contains w then s   -- panic after the report: nothing to demand
+              else { s with trS := s.trS ++ [.call w false], deadS := w :: s.deadS, nS := s.nNow }   -- a panic before reporting is a failure report
+            | some (false, w) =>
+              if s.repX.contains w then s
+              else { s with trX := s.trX ++ [.call w false], deadX := w :: s.deadX }
+            | none => s
       procToks s' t rest
 
 def specLine (s : Spec) (line : String) : Spec × String :=
@@ -292,18 +420,30 @@ def specLine (s : Spec) (line : String) : Spec × String :=
     if obs.startsWith "panic" || toks.contains "blocked" then (s, "VIOLATION C11/harness-crash-or-blocked " ++ op ++ " => " ++ obs)
     else match ws.head? with
     | some "reset" =>
-      ({ n := (kvNat ws "n").getD 0, nNow := (kvNat ws "n").getD 0, nS := (kvNat ws "n").getD 0, nX := (kvNat ws "n").getD 0, isApp := (kvNat ws "app").getD 0 ≥ 1, kind := (kv ws "kind").getD "" }, "ok")
+      let svc := ((kv ws "svc").getD "").toList
+      ({ n := (kvNat ws "n").getD 0, nNow := (kvNat ws "n").getD 0, nS := (kvNat ws "n").getD 0, nX := (kvNat ws "n").getD 0, isApp := (kvNat ws "app").getD 0 ≥ 1, kind := (kv ws "kind").getD "",
+         isNode := (kvNat ws "app").getD 0 == 2, readd := (kv ws "readd") == some "1",
+         launchable := (kv ws "prep") != some "0" &&
+           (((kv ws "mode").getD "reg") == "reg" || (kv ws "nodefault") != some "1"),
+         svcToks := ((List.range svc.length).filter fun i => svc.getD i 'M' == 'P').map fun i => "V" ++ toString i }, "ok")
     | some h =>
-      if h != "begin" && h != "fire" then (s, "ok")
+      if h == "wait" then
+        -- while no module reports or panics nothing may happen: no module entered, no completion reported
+        if obs == "-" then (s, "ok") else (s, "VIOLATION C11/progress-without-completion " ++ op ++ " => " ++ obs)
+      else if h != "begin" && h != "fire" then (s, "ok")
       else
-        let effective := obs != "-" && obs != "noop" && obs != "over"
+        -- (a node's second StartNode runs PrepareModules again — `P` — before the App's guard refuses it)
+        let effective := obs != "-" && obs != "noop" && obs != "over" && obs != "P"
         -- state guard (only meaningful while the scripted modules kept the discipline)
         let guard : Option String :=
           if h == "begin" && s.isApp && !s.broken then
             match phaseOf ws with
             | some true =>
-              if effective && s.begunS then some "C11/start-outside-prepared"
-              else if !effective && !s.begunS then some "C11/start-ignored" else none
+              -- a node cannot be started under an id that is not in its nodes table, before Prepare, or without a launch mode
+              let nodeOK := !s.isNode || (s.launchable && (kv ws "node") != some "bad")
+              if effective && !nodeOK then some "C11/startnode-not-refused"
+              else if effective && s.begunS then some "C11/start-outside-prepared"
+              else if !effective && !s.begunS && nodeOK then some "C11/start-ignored" else none
             | some false =>
               let normal := s.begunS && (finishes s.trS).contains true && !s.begunX
               if effective && !normal then some "C11/stop-outside-normal"
@@ -312,11 +452,11 @@ def specLine (s : Spec) (line : String) : Spec × String :=
           else none
         let s := if h == "begin" && effective then
             match phaseOf ws with
-            | some true => { s with trS := [], begunS := true }
-            | some false => { s with trX := [], begunX := true, nX := s.nNow }
+            | some true => { s with trS := [], repS := [], deadS := [], begunS := true }
+            | some false => { s with trX := [], repX := [], deadX := [], begunX := true, nX := s.nNow }
             | none => s
           else s
-        let unknown := toks.any fun t => (parseTok t).isNone && !isPanicTok t && t != "-" && t != "noop" && t != "over" && t != "panic" && t != "RX" && t != "RS" && t != "RG" && t != "undelivered" && !isAddTok t
+        let unknown := toks.any fun t => (parseTok t).isNone && !isPanicTok t && t != "-" && t != "noop" && t != "over" && t != "panic" && t != "RX" && t != "RS" && t != "RG" && t != "undelivered" && !isAddTok t && t != "P" && !isSvcTok t
         let (s, cbViolation) := procToks s "" toks
         let nowBroken := s.broken || !disciplinedB s.trS || !disciplinedB s.trX
         let r := match guard, cbViolation with
@@ -326,6 +466,7 @@ def specLine (s : Spec) (line : String) : Spec × String :=
             if toks.contains "undelivered" && !nowBroken then some "C11/finish-missing"
             else if toks.contains "panic" && !nowBroken then some "C11/panic-escapes"
             else if unknown then some "C11/unreadable-log"
+            else if s.isNode && !nowBroken && !servicesOK s.svcToks [] toks then some "C11/services-not-started-before-report"
             else match (if s.begunS then checkPhase s true s.trS else none) with
               | some v => some v
               | none => if s.begunX then checkPhase s false s.trX else none
